@@ -284,7 +284,10 @@ func lastPart(s string) string {
 func (ex *Exec) assumeResultTyped(st *State, v *Val) {
 	switch v.K {
 	case VScalar:
-		if v.T.Sort.Kind == SKInt && v.T.Sort != SInt && v.T.Sort != STime {
+		if v.T.Sort == SErr {
+			// errors may be sentinel variables, which live below the allocation range
+			st.assume(Lt(v.T, coerce(st.alloc, v.T.Sort)))
+		} else if v.T.Sort.Kind == SKInt && v.T.Sort != SInt && v.T.Sort != STime {
 			st.assume(And(Ge(v.T, IntLit(0, v.T.Sort)), Lt(v.T, coerce(st.alloc, v.T.Sort))))
 		}
 	case VSlice:
@@ -481,6 +484,9 @@ func (ex *Exec) applyContract(ctx *callCtx, fc *FuncContract, f *ssa.Function) [
 	}
 	ex.bumpAlloc(st)
 	res := ex.freshResult(ctx)
+	if fc.FreshResult && res != nil {
+		res = ex.freshenRefs(st, res)
+	}
 	if ex.collect {
 		return ctx.ret(res)
 	}
@@ -719,4 +725,32 @@ func (ex *Exec) appendOp(ctx *callCtx) *Val {
 		ex.setAt(st, n, Store(arr, r, ne), r)
 	}
 	return &Val{K: VSlice, Ref: r, Len: nl, Ty: s.Ty, Elem: el}
+}
+
+// freshenRefs replaces the reference components of a stub result by newly
+// allocated references (for stubs declared freshresult).
+func (ex *Exec) freshenRefs(st *State, v *Val) *Val {
+	switch v.K {
+	case VSlice:
+		nv := *v
+		nv.Ref = ex.newRef(st, "res")
+		if isByte(v.Elem) {
+			st.assume(Eq(slen(ex.bytesOf(st, nv.Ref)), nv.Len))
+		}
+		return &nv
+	case VScalar:
+		if v.T.Sort == SRef {
+			nv := *v
+			nv.T = ex.newRef(st, "res")
+			return &nv
+		}
+	case VStruct, VTuple:
+		nv := *v
+		nv.Fs = nil
+		for _, f := range v.Fs {
+			nv.Fs = append(nv.Fs, ex.freshenRefs(st, f))
+		}
+		return &nv
+	}
+	return v
 }
